@@ -616,18 +616,122 @@ def _normalise(segs):
 
 
 # ---------------------------------------------------------------------------------------
-ATOMS = {}
+def provably_equal(A, B):
+    """non-forking, conservative: True only if the two ropes are equal under the path condition"""
+    A = Rope.of(A)
+    B = Rope.of(B)
+    if A.key() == B.key():
+        return True
+    c = cur()
+    if not c.valid(A.length_term() == B.length_term()):
+        return False
+    X = list(A.segs)
+    Y = list(B.segs)
+    while X and Y:
+        a, b = X[0], Y[0]
+        if c.valid(a.len == b.len):
+            if not _seg_provably_eq(a, b):
+                return False
+            X.pop(0)
+            Y.pop(0)
+        elif c.valid(a.len < b.len):
+            if isinstance(b, (K, BE)) and _cval(a.len) is None:
+                return False
+            if c.valid(a.len == 0):
+                X.pop(0)
+                continue
+            b1, b2 = b.sub(I0, a.len), b.sub(a.len, b.len)
+            if b1 is None or b2 is None or not _seg_provably_eq(a, b1):
+                return False
+            X.pop(0)
+            Y[0] = b2
+        elif c.valid(b.len < a.len):
+            if isinstance(a, (K, BE)) and _cval(b.len) is None:
+                return False
+            if c.valid(b.len == 0):
+                Y.pop(0)
+                continue
+            a1, a2 = a.sub(I0, b.len), a.sub(b.len, a.len)
+            if a1 is None or a2 is None or not _seg_provably_eq(a1, b):
+                return False
+            Y.pop(0)
+            X[0] = a2
+        else:
+            return False
+    for rest in (X, Y):
+        for s_ in rest:
+            if not c.valid(s_.len == 0):
+                return False
+    return True
 
 
-def _atom(ka, kb):
-    if kb < ka:
-        ka, kb = kb, ka
-    name = "EQ|%s|%s" % (ka, kb)
-    a = ATOMS.get(name)
-    if a is None:
-        a = z3.Bool(name)
-        ATOMS[name] = a
-    return a
+def _seg_provably_eq(a, b):
+    if a.key() == b.key():
+        return True
+    c = cur()
+    if isinstance(a, K) and isinstance(b, K):
+        return a.b == b.b
+    if isinstance(a, Z) and isinstance(b, Z):
+        return a.val == b.val
+    if isinstance(a, BE) and isinstance(b, BE) and a.w == b.w:
+        return c.valid(a.t == b.t)
+    if isinstance(a, BE) and isinstance(b, K) and a.w == len(b.b):
+        return c.valid(a.t == int.from_bytes(b.b, "big"))
+    if isinstance(b, BE) and isinstance(a, K) and b.w == len(a.b):
+        return c.valid(b.t == int.from_bytes(a.b, "big"))
+    if isinstance(a, Sl) and isinstance(b, Sl):
+        return _seg_provably_eq(a.base, b.base) and c.valid(z3.And(a.lo == b.lo, a.hi == b.hi))
+    if isinstance(a, F) and isinstance(b, F) and a.f == b.f and len(a.args) == len(b.args):
+        return all(args_provably_equal(x, y) for x, y in zip(a.args, b.args))
+    return False
+
+
+def args_provably_equal(x, y):
+    if x is None or y is None:
+        return x is y
+    if isinstance(x, (Rope, bytes, bytearray, MutRope)) or isinstance(y, (Rope, bytes, bytearray, MutRope)):
+        try:
+            return provably_equal(x, y)
+        except Undecided:
+            return False
+    if isinstance(x, (int, SInt, SBV)) and isinstance(y, (int, SInt, SBV)):
+        if isinstance(x, int) and isinstance(y, int):
+            return x == y
+        return cur().valid(toint(x) == toint(y))
+    return x == y
+
+
+def congruent_lookup(kind, fname, args, make):
+    """uninterpreted-function application with congruence decided semantically: an earlier
+    application (on this path) whose arguments are provably equal is reused"""
+    c = cur()
+    reg = c.aux.setdefault("uf_registry", {})
+    lst = reg.setdefault((kind, fname), [])
+    for old_args, val in lst:
+        if len(old_args) == len(args) and all(args_provably_equal(x, y) for x, y in zip(old_args, args)):
+            return val
+    val = make()
+    lst.append((tuple(args), val))
+    return val
+
+
+def _atom(a, b):
+    """opaque equality atom for two segments/ropes (reused for provably equal pairs)"""
+    def make():
+        ka, kb = a.key(), b.key()
+        if kb < ka:
+            ka, kb = kb, ka
+        return z3.Bool("EQ|%s|%s" % (ka, kb))
+    ra, rb = Rope([a]) if isinstance(a, Seg) else a, Rope([b]) if isinstance(b, Seg) else b
+    c = cur()
+    reg = c.aux.setdefault("atom_registry", [])
+    for (x, y, at) in reg:
+        if (args_provably_equal(x, ra) and args_provably_equal(y, rb)) or \
+                (args_provably_equal(x, rb) and args_provably_equal(y, ra)):
+            return at
+    at = make()
+    reg.append((ra, rb, at))
+    return at
 
 
 def _align(A, B):
@@ -684,6 +788,8 @@ def _atom_eq(a, b):
     fa = a if isinstance(a, F) else None
     fb = b if isinstance(b, F) else None
     if fa and fb and fa.f == fb.f and len(fa.args) == len(fb.args):
+        if all(args_provably_equal(x, y) for x, y in zip(fa.args, fb.args)):
+            return True
         conj = []
         for x, y in zip(fa.args, fb.args):
             e = _arg_eq(x, y)
@@ -695,8 +801,8 @@ def _atom_eq(a, b):
         if conj is not None:
             if not conj:
                 return True
-            return z3.Or(z3.And(*conj), _atom(a.key(), b.key()))
-        return _atom(a.key(), b.key())
+            return z3.Or(z3.And(*conj), _atom(a, b))
+        return _atom(a, b)
     if L is not None and L <= 8 and _intable(a) and _intable(b):
         return _simp(_seg_int(a, L) == _seg_int(b, L))
     if L is not None and L <= 256 and _bytable(a) and _bytable(b):
@@ -705,7 +811,7 @@ def _atom_eq(a, b):
         c = cur()
         if c.valid(a.lo == b.lo):
             return True
-    return _atom(a.key(), b.key())
+    return _atom(a, b)
 
 
 def _intable(s):
